@@ -23,10 +23,18 @@ ASSUMPTIONS = [
 ]
 
 
+@st.composite
+def case_strategy(draw):
+    case = draw(xc.ref_tgt_case(nres_max=3))
+    case["prior_seed"] = draw(st.integers(0, 2 ** 31))
+    return case
+
+
 def check(case):
     ref, tgt = xc.build_pair(case)
     s = case["s"]
     M = xc.make_map(ref, tgt, s)
+    prior = xc.prior_call(M, case, case.get("prior_seed", 0))
     out = lib("map-apply", M, ref)
     got = positions(out)
     rpos = np.array(case["ref"]["coords"], float)
@@ -55,6 +63,7 @@ def check(case):
                "tgt>ref" if len(tpos) > len(rpos) else "tgt<=ref", "graph:" + case["ref"]["graph"]]
     if ntie:
         classes.append("tie")
+    classes.append("after-other-call" if prior else "first-call")
     nt = len(anchors) >= 2 and len(tpos) >= 2 and (s != 1.0 or case["geom"] != "generic")
     return {"nontrivial": nt, "classes": classes}
 
@@ -64,7 +73,7 @@ def _b(case):
 
 
 SUBCHECKS = [
-    Sub("law", check, strategy=lambda tier: xc.ref_tgt_case(nres_max=3),
+    Sub("law", check, strategy=lambda tier: case_strategy(),
         quick=3000, thorough=80000,
-        min_share={"geom:axis-z": 0.04, "geom:diagonal": 0.04, "geom:mixed": 0.04, "s!=1": 0.3}),
+        min_share={"geom:axis-z": 0.04, "geom:diagonal": 0.04, "geom:mixed": 0.04, "s!=1": 0.3, "after-other-call": 0.3}),
 ]
